@@ -240,6 +240,20 @@ def clientNorm (r : Req) : Msg :=
 /-- does the client put END_STREAM on HEADERS (`!HasBody && !HasTrailers`)? -/
 def Req.earlyEnd (r : Req) : Bool := r.actualCL == 0 && r.trailer.isEmpty
 
+/-- **As the code is.** `clientStream.writeRequest` skips the body phase — which is also what sends
+the trailers and the final END_STREAM — when `actualContentLength(req) == 0` (`Body == nil`), while
+`encodeAndWriteHeaders` leaves END_STREAM off the HEADERS frame whenever trailers are announced
+(`endStream := !res.HasBody && !res.HasTrailers`). A request with no body but a non-empty `Trailer`
+therefore never ends its stream. -/
+def Req.neverEnds (r : Req) : Bool := r.actualCL == 0 && !r.trailer.isEmpty
+
+/-- the frames the Transport writes for a request (`encodeAndWriteHeaders` + `writeRequestBody`),
+for a plan `p` (stream id, peer's frame size, cut sequence, END_STREAM placement on DATA). -/
+def clientFrames (C : Codec) (s : C.S) (p : Plan) (r : Req) : List SFrame × C.S :=
+  if r.neverEnds then
+    ((writeHeaderBlock p.sid false p.maxHdr (C.enc s (reqFields r)).1), (C.enc s (reqFields r)).2)
+  else encodeFrames C s { p with earlyEnd := r.earlyEnd } (clientNorm r)
+
 /-! ## Request: server side -/
 
 structure HReq where
